@@ -21,7 +21,22 @@ Long(n) == P("long", <<InA, SLet("Signal", "r", Chain(n))>>)
 Wide(n) == P("wide", <<InA, InB>> \o [i \in 1..n |-> SLet("Signal", "r" \o ToString(i), Bin("+", Bin("*", A, Num(i)), Num(i)))])
 MemFar == P("memfar", <<SIn("d", "signal-M", 5), SIn("e", "signal-E", 0), SMem("m", "signal-M"), SWrite("m", Ref("d"), "when", Bin(">", Ref("e"), Num(0)), Num(0)),
                         Lamp("l", 0, 0), Lamp("k", 25, 0), En("l", Bin(">", ReadE("m"), Num(0))), En("k", Bin("<", ReadE("m"), Num(0)))>>)
-All == {Far(d) : d \in {12, 25, 45}} \cup {Far2(d) : d \in {10, 20}} \cup {Row(n, g) : n \in {6, 12}, g \in {2, 5}} \cup {Long(n) : n \in {6, 14, 26}}
+\* a combinator pulled away from both of its neighbours: a chest feeds a multiplier that drives lamps near the chest and far away
+Chest(n, x, y) == SPlace(n, "steel-chest", Num(x), Num(y), <<>>)
+CI(n) == <<[ent |-> n, item |-> "iron-plate"]>>
+PC(grp, stmts, cins) == [grp |-> grp, stmts |-> stmts, src |-> Render(stmts), dom |-> <<0, 1>>, cins |-> cins]
+Iron(n) == Sel(EOut(n), "iron-plate")
+Through == {
+  PC("through", <<Chest("c", 0, 0), SLet("Signal", "s", Bin("*", Iron("c"), Num(2))), Lamp("near", 0, 4), Lamp("far", d, 0),
+                  En("near", Bin(">", Ref("s"), Num(100))), En("far", Bin(">", Ref("s"), Num(10)))>>, CI("c")) : d \in {20, 40}}
+  \cup {
+  PC("through", <<Chest("c", 0, 0), Chest("k", 0, 2), SLet("Signal", "s1", Bin("*", Iron("c"), Num(2))), SLet("Signal", "s2", Bin("*", Iron("k"), Num(3))),
+                  Lamp("l1", 40, 0), Lamp("l2", 40, 2), En("l1", Bin(">", Ref("s1"), Num(10))), En("l2", Bin(">", Ref("s2"), Num(10)))>>, CI("c") \o CI("k")),
+  PC("through", <<Chest("c", 0, 0), SLet("Signal", "s", Bin("+", Iron("c"), Num(1))), SLet("Signal", "t", Bin("*", Ref("s"), Num(2))), Lamp("mid", 20, 0), Lamp("far", 40, 0),
+                  En("mid", Bin(">", Ref("s"), Num(5))), En("far", Bin(">", Ref("t"), Num(20)))>>, CI("c")),
+  PC("through", <<Chest("pa", 0, 0), Chest("pb", 0, 2), Lamp("pl", 30, 0), En("pl", Bin(">", Iron("pa"), Num(5))), SProp("pl", "r", Sel(EOut("pb"), "copper-plate"))>>, CI("pa") \o <<[ent |-> "pb", item |-> "copper-plate"]>>)
+ }
+All == Through \cup {Far(d) : d \in {12, 25, 45}} \cup {Far2(d) : d \in {10, 20}} \cup {Row(n, g) : n \in {6, 12}, g \in {2, 5}} \cup {Long(n) : n \in {6, 14, 26}}
        \cup {Wide(n) : n \in {5, 12}} \cup {MemFar}
 ASSUME PrintT(<<"NPROGS", Cardinality(All)>>)
 ASSUME JsonSerialize(IOEnv.GEN_OUT, SetToSeq(All))
